@@ -77,7 +77,7 @@ def handleProg (out : IO.FS.Stream) (id : String) (pathSpec : String) (toks : Li
         | .ok c =>
           renderContexts out f c
           match mkGraph f with
-          | .ok g => emit out s!"premises fwdWF={if Solver.fwdWF g then 1 else 0} bwdWF={if Solver.bwdWF g then 1 else 0}"
+          | .ok g => emit out s!"premises fwdWF={if Solver.fwdWF g then 1 else 0} bwdWF={if Solver.bwdWF g then 1 else 0} nodupNext={if f.blocks.all (fun b => b.next.eraseDups.length == b.next.length) then 1 else 0}"
           | .error _ => pure ()
           let fuel := (f.blocks.length + 2) * (f.subs.length + 2) + 2
           for d in allDetectors do
